@@ -134,8 +134,26 @@ def pattern_lists(rng, count):
         k = rng.randint(2, 4)
         vs = rng.sample(base, k)
         terms = [v if rng.random() < 0.7 else sub(1) for v in vs]
-        if kind == 0:  # or2xor exact shape, arity k
-            e = ["or", ["and"] + terms, ["and"] + [["not", t] for t in terms]]
+        if kind == 0:  # or2xor exact shape, arity k; often with unequal arities (extra conjuncts on one side)
+            left = list(terms)
+            right = [["not", t] for t in terms]
+            r = rng.random()
+            others = [v for v in base if v not in vs] or base
+
+            def extra():
+                x = rng.choice(others)
+                return rng.choice([x, ["not", x], ["or", x, rng.choice(base)], ["xor", x, rng.choice(base)]])
+
+            if r < 0.35:
+                right += [extra() for _ in range(rng.randint(1, 2))]
+            elif r < 0.5:
+                left += [extra() for _ in range(rng.randint(1, 2))]
+            elif r < 0.6:
+                left.append(extra())
+                right.append(extra())
+            if rng.random() < 0.3:
+                left, right = right, left
+            e = ["or", ["and"] + left, ["and"] + right]
         elif kind == 1:  # near miss: one literal not negated
             neg = [["not", t] for t in terms]
             j = rng.randrange(k)
